@@ -87,6 +87,7 @@ type Contract struct {
 type ContractSet struct {
 	byKey    map[string]*Contract
 	pkgSpecs map[string]map[string]*SpecFn // pkg -> specs
+	pkgFacts map[string][]*Clause          // pkg -> facts established by package initialisation (assumed)
 	lemmas   []*Lemma
 	files    []string
 }
@@ -96,7 +97,7 @@ var directiveRe = regexp.MustCompile(`^([a-z-]+)(\[[A-Za-z0-9_.:@,-]+\])?(\s+|$)
 var knownDirectives = map[string]bool{"func": true, "extern": true, "property": true, "requires": true, "ensures": true,
 	"modifies": true, "loop": true, "spec": true, "nooverflow": true, "nopanic": true, "inline": true, "assume": true, "pure": true,
 	"noreturn": true, "nilrecv": true, "lemma": true, "var": true, "assumes": true, "shows": true, "uses": true, "iface": true,
-	"bounded": true, "note": true, "ghost": true, "hint": true, "package": true, "opaque": true, "reveal": true, "guard": true, "check": true, "lenient": true, "depends": true, "captures": true}
+	"bounded": true, "note": true, "ghost": true, "hint": true, "package": true, "opaque": true, "reveal": true, "guard": true, "check": true, "lenient": true, "depends": true, "captures": true, "initfact": true}
 
 // loadContracts parses every zz_verif_contracts.go below root/src.
 func loadContracts(root string) (*ContractSet, error) {
@@ -182,6 +183,18 @@ func (cs *ContractSet) parseFile(path, pkg string) error {
 			lem = &Lemma{Name: d.text, File: path, Pkg: pkg, Specs: map[string]*SpecFn{}}
 			cs.lemmas = append(cs.lemmas, lem)
 			cur = nil
+			continue
+		case "initfact":
+			// a fact about package-level variables that holds once the package's initialisers
+			// have run (assumed wherever one of the variables it names is loaded)
+			n, err := parseSpec(d.text)
+			if err != nil {
+				return perr(d, err)
+			}
+			if cs.pkgFacts == nil {
+				cs.pkgFacts = map[string][]*Clause{}
+			}
+			cs.pkgFacts[pkg] = append(cs.pkgFacts[pkg], &Clause{Expr: n, Src: d.text})
 			continue
 		case "spec", "opaque":
 			sf, err := parseSpecFn(d.text)
